@@ -1,7 +1,6 @@
 package props
 
 import (
-	"bytes"
 	"encoding/hex"
 	"encoding/json"
 	"fmt"
@@ -10,6 +9,8 @@ import (
 	"unicode/utf8"
 
 	"golang.org/x/mod/modfile"
+	"golang.org/x/mod/module"
+	"golang.org/x/mod/semver"
 
 	"verif/harness/gen"
 	"verif/harness/hx"
@@ -343,6 +344,7 @@ func mfTotalOracle(data string) string {
 type c20In struct {
 	Op   string `json:"op"`
 	Data string `json:"data_hex"`
+	Mode int    `json:"fix_mode"`
 }
 
 // c20Input draws one input of the syntax layer and a label for the distribution.
@@ -438,7 +440,7 @@ func c20SyntaxCase(c *hx.Ctx, data, label string) {
 		c20Stats(c, fs)
 	}
 	msg := mfTotalOracle(data)
-	c.Check("total+positions", msg == "", "", c20In{"syntax", hex.EncodeToString([]byte(data))}, msg)
+	c.Check("total+positions", msg == "", "", c20In{Op: "syntax", Data: hex.EncodeToString([]byte(data))}, msg)
 }
 
 func runC20(c *hx.Ctx) {
@@ -468,12 +470,470 @@ func replayC20(raw json.RawMessage) (bool, string) {
 	case "syntax":
 		msg = mfTotalOracle(data)
 	default:
-		msg = c20DirectiveReplay(in.Op, data)
+		msg = c20DirectiveReplay(in.Op, data, in.Mode)
 	}
 	return msg == "", msg
 }
 
-var _ = bytes.Equal
 
-func c20Directives(c *hx.Ctx)                      {}
-func c20DirectiveReplay(op, data string) string { return "unknown op " + op }
+// ---------------------------------------------------------------- directive layer
+
+// MfCanonFixer is the deterministic VersionFixer implemented on both sides
+// (DispatchSyntax.canon_fixer): reject an empty path, canonicalise with semver.Canonical,
+// reject invalid versions.
+func MfCanonFixer(path, v string) (string, error) {
+	if path == "" {
+		return "", fmt.Errorf("empty path")
+	}
+	c := semver.Canonical(v)
+	if c == "" {
+		return "", fmt.Errorf("invalid version %q", v)
+	}
+	return c, nil
+}
+
+func mfFixer(mode int) modfile.VersionFixer {
+	if mode == 0 {
+		return nil
+	}
+	return MfCanonFixer
+}
+
+// mfRefs maps every *Line of a tree to its place: [stmt index; line index + 1 or 0].
+func mfRefs(fs *modfile.FileSyntax) map[*modfile.Line]wire.Val {
+	m := map[*modfile.Line]wire.Val{}
+	for i, s := range fs.Stmt {
+		switch x := s.(type) {
+		case *modfile.Line:
+			m[x] = wire.L(wire.Int(i), wire.Int(0))
+		case *modfile.LineBlock:
+			for j, l := range x.Line {
+				m[l] = wire.L(wire.Int(i), wire.Int(j+1))
+			}
+		}
+	}
+	return m
+}
+
+func mfRef(m map[*modfile.Line]wire.Val, l *modfile.Line) wire.Val {
+	if v, ok := m[l]; ok {
+		return v
+	}
+	return wire.L(wire.Int(-1), wire.Int(-1))
+}
+
+func mfGo(m map[*modfile.Line]wire.Val, g *modfile.Go) wire.Val {
+	if g == nil {
+		return wire.L()
+	}
+	return wire.L(wire.S(g.Version), mfRef(m, g.Syntax))
+}
+
+func mfToolchain(m map[*modfile.Line]wire.Val, t *modfile.Toolchain) wire.Val {
+	if t == nil {
+		return wire.L()
+	}
+	return wire.L(wire.S(t.Name), mfRef(m, t.Syntax))
+}
+
+func mfGodebugs(m map[*modfile.Line]wire.Val, gs []*modfile.Godebug) wire.Val {
+	l := make([]wire.Val, len(gs))
+	for i, g := range gs {
+		l[i] = wire.L(wire.S(g.Key), wire.S(g.Value), mfRef(m, g.Syntax))
+	}
+	return wire.L(l...)
+}
+
+func mfReplaces(m map[*modfile.Line]wire.Val, rs []*modfile.Replace) wire.Val {
+	l := make([]wire.Val, len(rs))
+	for i, r := range rs {
+		l[i] = wire.L(wire.S(r.Old.Path), wire.S(r.Old.Version), wire.S(r.New.Path), wire.S(r.New.Version), mfRef(m, r.Syntax))
+	}
+	return wire.L(l...)
+}
+
+// MfFile is the canonical encoding of a *modfile.File (DispatchSyntax.enc_filed).
+func MfFile(f *modfile.File) wire.Val {
+	m := mfRefs(f.Syntax)
+	mod := wire.L()
+	if f.Module != nil {
+		mod = wire.L(wire.S(f.Module.Mod.Path), wire.S(f.Module.Mod.Version), wire.S(f.Module.Deprecated), mfRef(m, f.Module.Syntax))
+	}
+	req := make([]wire.Val, len(f.Require))
+	for i, r := range f.Require {
+		req[i] = wire.L(wire.S(r.Mod.Path), wire.S(r.Mod.Version), wire.Bool(r.Indirect), mfRef(m, r.Syntax))
+	}
+	exc := make([]wire.Val, len(f.Exclude))
+	for i, r := range f.Exclude {
+		exc[i] = wire.L(wire.S(r.Mod.Path), wire.S(r.Mod.Version), mfRef(m, r.Syntax))
+	}
+	ret := make([]wire.Val, len(f.Retract))
+	for i, r := range f.Retract {
+		ret[i] = wire.L(wire.S(r.Low), wire.S(r.High), wire.S(r.Rationale), mfRef(m, r.Syntax))
+	}
+	tools := make([]wire.Val, len(f.Tool))
+	for i, t := range f.Tool {
+		tools[i] = wire.L(wire.S(t.Path), mfRef(m, t.Syntax))
+	}
+	return wire.L(mod, mfGo(m, f.Go), mfToolchain(m, f.Toolchain), mfGodebugs(m, f.Godebug), wire.L(req...), wire.L(exc...),
+		mfReplaces(m, f.Replace), wire.L(ret...), wire.L(tools...), MfTree(f.Syntax))
+}
+
+// MfWork is the canonical encoding of a *modfile.WorkFile (DispatchSyntax.enc_work).
+func MfWork(f *modfile.WorkFile) wire.Val {
+	m := mfRefs(f.Syntax)
+	uses := make([]wire.Val, len(f.Use))
+	for i, u := range f.Use {
+		uses[i] = wire.L(wire.S(u.Path), wire.S(u.ModulePath), mfRef(m, u.Syntax))
+	}
+	return wire.L(mfGo(m, f.Go), mfToolchain(m, f.Toolchain), mfGodebugs(m, f.Godebug), wire.L(uses...), mfReplaces(m, f.Replace), MfTree(f.Syntax))
+}
+
+// mfDirErr encodes the error of Parse/ParseLax/ParseWork: the syntax layer's error when
+// the syntax-only parser fails on the same input, else the positions of the directive errors.
+func mfDirErr(data string, err error) wire.Val {
+	if _, serr := modfile.VerifParse("go.mod", []byte(data)); serr != nil {
+		return MfErrs(serr)
+	}
+	el, ok := err.(modfile.ErrorList)
+	if !ok {
+		return wire.L(wire.S("derrs"), wire.S(fmt.Sprintf("%T", err)))
+	}
+	l := make([]wire.Val, len(el))
+	for i, e := range el {
+		if strings.Contains(e.Error(), "internal") {
+			return wire.Panic()
+		}
+		l[i] = mfPos(e.Pos)
+	}
+	return wire.L(wire.S("derrs"), wire.L(l...))
+}
+
+// mfParse runs Parse ("Parse"), ParseLax ("ParseLax") or ParseWork ("ParseWork").
+func mfParse(fn, data string, mode int) (res wire.Val, f *modfile.File, w *modfile.WorkFile, err error, bad string) {
+	hung, panicked, msg := MfWatchdog(func() {
+		switch fn {
+		case "Parse":
+			f, err = modfile.Parse("go.mod", []byte(data), mfFixer(mode))
+		case "ParseLax":
+			f, err = modfile.ParseLax("go.mod", []byte(data), mfFixer(mode))
+		default:
+			w, err = modfile.ParseWork("go.work", []byte(data), mfFixer(mode))
+		}
+	})
+	switch {
+	case hung:
+		return wire.L(wire.S("hang")), nil, nil, nil, fn + ": " + msg
+	case panicked:
+		return wire.Panic(), nil, nil, nil, fn + ": panic escaped: " + msg
+	case err != nil:
+		res = mfDirErr(data, err)
+		if res.Kind == 'L' && len(res.L) == 1 {
+			bad = fn + ": internal error reported: " + err.Error()
+		}
+		return res, nil, nil, err, bad
+	case w != nil:
+		return wire.Ok(MfWork(w)), nil, w, nil, ""
+	}
+	return wire.Ok(MfFile(f)), f, nil, nil, ""
+}
+
+// the core of a File: module path + deprecation, go version, requires, retracts
+func mfCore(f *modfile.File) string {
+	var b strings.Builder
+	if f.Module != nil {
+		fmt.Fprintf(&b, "module %q %q\n", f.Module.Mod.Path, f.Module.Deprecated)
+	}
+	if f.Go != nil {
+		fmt.Fprintf(&b, "go %q\n", f.Go.Version)
+	}
+	for _, r := range f.Require {
+		fmt.Fprintf(&b, "require %q %q %v\n", r.Mod.Path, r.Mod.Version, r.Indirect)
+	}
+	for _, r := range f.Retract {
+		fmt.Fprintf(&b, "retract %q %q %q\n", r.Low, r.High, r.Rationale)
+	}
+	return b.String()
+}
+
+// every typed value of a File, without syntax pointers
+func MfValues(f *modfile.File) string {
+	var b strings.Builder
+	b.WriteString(mfCore(f))
+	if f.Toolchain != nil {
+		fmt.Fprintf(&b, "toolchain %q\n", f.Toolchain.Name)
+	}
+	for _, g := range f.Godebug {
+		fmt.Fprintf(&b, "godebug %q %q\n", g.Key, g.Value)
+	}
+	for _, r := range f.Exclude {
+		fmt.Fprintf(&b, "exclude %q %q\n", r.Mod.Path, r.Mod.Version)
+	}
+	for _, r := range f.Replace {
+		fmt.Fprintf(&b, "replace %q %q %q %q\n", r.Old.Path, r.Old.Version, r.New.Path, r.New.Version)
+	}
+	for _, t := range f.Tool {
+		fmt.Fprintf(&b, "tool %q\n", t.Path)
+	}
+	return b.String()
+}
+
+func MfWorkValues(f *modfile.WorkFile) string {
+	var b strings.Builder
+	if f.Go != nil {
+		fmt.Fprintf(&b, "go %q\n", f.Go.Version)
+	}
+	if f.Toolchain != nil {
+		fmt.Fprintf(&b, "toolchain %q\n", f.Toolchain.Name)
+	}
+	for _, g := range f.Godebug {
+		fmt.Fprintf(&b, "godebug %q %q\n", g.Key, g.Value)
+	}
+	for _, u := range f.Use {
+		fmt.Fprintf(&b, "use %q %q\n", u.Path, u.ModulePath)
+	}
+	for _, r := range f.Replace {
+		fmt.Fprintf(&b, "replace %q %q %q %q\n", r.Old.Path, r.Old.Version, r.New.Path, r.New.Version)
+	}
+	return b.String()
+}
+
+// oracle: strict ok => lax ok with the same core
+func c20StrictLax(data string, mode int) string {
+	_, f, _, err, bad := mfParse("Parse", data, mode)
+	if bad != "" {
+		return bad
+	}
+	_, fl, _, errl, badl := mfParse("ParseLax", data, mode)
+	if badl != "" {
+		return badl
+	}
+	if err != nil {
+		return ""
+	}
+	if errl != nil {
+		return "strict parser accepts, lax parser rejects: " + errl.Error()
+	}
+	if a, b := mfCore(f), mfCore(fl); a != b {
+		return fmt.Sprintf("core differs: strict %q lax %q", a, b)
+	}
+	return ""
+}
+
+func mfCoreVerb(v string) bool { return v == "go" || v == "module" || v == "retract" || v == "require" }
+
+// oracle: the lax parser ignores unknown directives and blocks: dropping every statement
+// the lax parser does not interpret leaves its result unchanged.
+func c20LaxIgnores(data string, mode int) (msg string, dropped int) {
+	_, fl, _, errl, bad := mfParse("ParseLax", data, mode)
+	if bad != "" {
+		return bad, 0
+	}
+	fs, serr := modfile.VerifParse("go.mod", []byte(data))
+	if serr != nil {
+		return "", 0
+	}
+	var keep []modfile.Expr
+	for _, s := range fs.Stmt {
+		switch x := s.(type) {
+		case *modfile.Line:
+			if !mfCoreVerb(x.Token[0]) {
+				dropped++
+				continue
+			}
+		case *modfile.LineBlock:
+			if len(x.Token) != 1 || !mfCoreVerb(x.Token[0]) || x.Token[0] == "go" {
+				dropped++
+				continue
+			}
+		}
+		keep = append(keep, s)
+	}
+	if dropped == 0 {
+		return "", 0
+	}
+	fs.Stmt = keep
+	out := modfile.Format(fs)
+	_, f2, _, err2, bad2 := mfParse("ParseLax", string(out), mode)
+	if bad2 != "" {
+		return bad2, dropped
+	}
+	if (errl == nil) != (err2 == nil) {
+		return fmt.Sprintf("lax result changes when uninterpreted statements are dropped: before err=%v after err=%v (%q)", errl, err2, out), dropped
+	}
+	if errl != nil {
+		if a, b := len(errl.(modfile.ErrorList)), len(err2.(modfile.ErrorList)); a != b {
+			return fmt.Sprintf("number of lax errors changes from %d to %d when uninterpreted statements are dropped", a, b), dropped
+		}
+		return "", dropped
+	}
+	if a, b := MfValues(fl), MfValues(f2); a != b {
+		return fmt.Sprintf("lax values change when uninterpreted statements are dropped: %q vs %q", a, b), dropped
+	}
+	return "", dropped
+}
+
+// oracle: ModulePath agrees with the strict parser when the module directive is a single
+// line naming a valid import path.  shape is "K1" for the recorded exception: an earlier
+// block line whose first token is "module".
+func c20ModulePath(data string) (msg, shape string, applicable bool) {
+	var got string
+	hung, panicked, pmsg := MfWatchdog(func() { got = modfile.ModulePath([]byte(data)) })
+	if hung || panicked {
+		return "ModulePath: " + pmsg, "", true
+	}
+	f, err := modfile.Parse("go.mod", []byte(data), nil)
+	if err != nil || f.Module == nil || f.Module.Syntax.InBlock {
+		return "", "", false
+	}
+	if module.CheckImportPath(f.Module.Mod.Path) != nil {
+		return "", "", false
+	}
+	if got == f.Module.Mod.Path {
+		return "", "", true
+	}
+	for _, s := range f.Syntax.Stmt {
+		if l, ok := s.(*modfile.Line); ok && l == f.Module.Syntax {
+			break
+		}
+		if b, ok := s.(*modfile.LineBlock); ok {
+			for _, l := range b.Line {
+				if len(l.Token) > 0 && l.Token[0] == "module" {
+					shape = "K1"
+				}
+			}
+		}
+	}
+	return fmt.Sprintf("ModulePath = %q but Parse gives module path %q", got, f.Module.Mod.Path), shape, true
+}
+
+// K1 witnesses and near misses
+func c20K1Input(c *hx.Ctx) string {
+	r := c.Rng
+	verb := []string{"require", "exclude", "replace", "retract", "tool", "godebug"}[r.Intn(6)]
+	var line string
+	switch verb {
+	case "require", "exclude":
+		line = "module v1.0.0"
+	case "replace":
+		line = "module => ./m"
+	case "retract":
+		line = []string{"module", "[module, module]"}[r.Intn(2)]
+	case "tool":
+		line = "module"
+	default:
+		line = "module=1"
+	}
+	pre := ""
+	if r.Intn(3) == 0 {
+		pre = "// module fake\n"
+	}
+	return pre + verb + " (\n\t" + line + "\n)\nmodule example.com/m\n"
+}
+
+func c20DirCase(c *hx.Ctx, fn, data string, mode int) {
+	res, _, _, _, _ := mfParse(fn, data, mode)
+	c.Case(fn, wire.L(wire.S(data), wire.Int(mode)), res)
+	c.Count(fn + ":" + c20Shape(res))
+	if res.Kind == 'L' && len(res.L) > 0 && res.L[0].S == "ok" {
+		c.Nontrivial(fn + ":" + data)
+	}
+}
+
+func c20Directives(c *hx.Ctx) {
+	r := c.Rng
+	for i := 0; i < c.N(5000); i++ {
+		var data string
+		work := false
+		switch k := r.Intn(20); {
+		case k < 10:
+			data = gen.GoMod(r)
+		case k < 13:
+			data = gen.GoModOpts(r, gen.ModOpts{NoInvalid: true, NoUnknown: r.Intn(2) == 0})
+		case k < 16:
+			data, work = gen.GoWork(r), true
+		case k < 18:
+			data = gen.TestdataMutant(r)
+		case k < 19:
+			data = gen.Mutate(r, gen.GoMod(r), "()[]{},\"`/ \t\r\n\\=>v1.")
+		default:
+			data = gen.TokenSoup(r)
+		}
+		mode := r.Intn(2)
+		in := c20In{Op: "", Data: hex.EncodeToString([]byte(data)), Mode: mode}
+		if work && r.Intn(4) != 0 {
+			c20DirCase(c, "ParseWork", data, mode)
+			_, _, _, _, bad := mfParse("ParseWork", data, mode)
+			in.Op = "work-total"
+			c.Check("work-total", bad == "", "", in, bad)
+			continue
+		}
+		c20DirCase(c, "Parse", data, mode)
+		c20DirCase(c, "ParseLax", data, mode)
+		msg := c20StrictLax(data, mode)
+		in.Op = "strict-lax"
+		c.Check("strict-implies-lax-same-core", msg == "", "", in, msg)
+		msg, dropped := c20LaxIgnores(data, mode)
+		if dropped > 0 {
+			c.Count("lax-ignores:applicable")
+		}
+		in.Op = "lax-ignores"
+		c.Check("lax-ignores-unknown", msg == "", "", in, msg)
+	}
+	// ModulePath
+	for i := 0; i < c.N(4000); i++ {
+		var data string
+		switch k := r.Intn(20); {
+		case k < 9:
+			data = gen.GoModOpts(r, gen.ModOpts{NoInvalid: true, NoUnknown: true})
+		case k < 14:
+			data = gen.GoMod(r)
+			if r.Intn(60) == 0 {
+				data = c20K1Input(c) // a few witnesses of the recorded finding K1
+			}
+		case k < 16:
+			data = gen.TestdataMutant(r)
+		case k < 18:
+			data = "module" + []string{" ", "\t", "  ", "", "\u00a0", " \t "}[r.Intn(6)] +
+				[]string{"example.com/m", "\"example.com/m\"", "`example.com/m`", "\"a\\x2fb\"", "\"unterminated", "m // c", "\"m\" // c", "a b", "\"\"", "m//x", "\"m//x\""}[r.Intn(11)] +
+				[]string{"\n", "", "\r\n", " \n", "\ngo 1.21\n"}[r.Intn(5)]
+		default:
+			data = gen.TokenSoup(r)
+		}
+		var got string
+		_, panicked, _ := MfWatchdog(func() { got = modfile.ModulePath([]byte(data)) })
+		if panicked {
+			c.Case("ModulePath", wire.S(data), wire.Panic())
+		} else {
+			c.Case("ModulePath", wire.S(data), wire.S(got))
+		}
+		if got != "" {
+			c.Count("ModulePath:found")
+		} else {
+			c.Count("ModulePath:empty")
+		}
+		msg, shape, applicable := c20ModulePath(data)
+		if applicable {
+			c.Count("ModulePath:oracle-applicable")
+			c.Nontrivial("mp:" + data)
+		}
+		c.Check("modulepath-agrees-with-strict", msg == "", shape, c20In{Op: "modulepath", Data: hex.EncodeToString([]byte(data))}, msg)
+	}
+}
+
+func c20DirectiveReplay(op, data string, mode int) string {
+	switch op {
+	case "strict-lax":
+		return c20StrictLax(data, mode)
+	case "lax-ignores":
+		m, _ := c20LaxIgnores(data, mode)
+		return m
+	case "work-total":
+		_, _, _, _, bad := mfParse("ParseWork", data, mode)
+		return bad
+	case "modulepath":
+		m, _, _ := c20ModulePath(data)
+		return m
+	}
+	return "unknown op " + op
+}
